@@ -323,7 +323,19 @@ def _det(M):
     return tot
 
 
-def run_case(case_id, tier="quick", seed=0, replay_dir=None, log=print):
+def _case(case_id, tier):
     make, goals, opts = build(case_id)
-    case = PCase("C08/" + case_id, make, goals, budget_s=240 if tier == "quick" else 900)
-    return case.run(seed=seed, log=log, replay_dir=replay_dir)
+    return PCase("C08/" + case_id, make, goals, budget_s=240 if tier == "quick" else 900)
+
+
+def run_case(case_id, tier="quick", seed=0, replay_dir=None, log=print):
+    return _case(case_id, tier).run(seed=seed, log=log, replay_dir=replay_dir)
+
+
+def replay(path):
+    import json
+    with open(path) as f:
+        data = json.load(f)
+    case_id = data["case"].split("/", 1)[1]
+    case = _case(case_id, "quick")
+    return case.replay(path)
